@@ -23,8 +23,8 @@ from . import dailyref as R
 from .c05 import _billing_data
 
 EXPLANATION = "C19: monthly / bi-monthly aggregation block of BillingModel.predict on symbolic daily results; totals across aggregation levels; argument catalogue."
-BOUNDS = {"quick": dict(rows="6-8 daily rows on enumerated spans (month boundaries, gaps, partial months)", nan_rows=2, zones=["US/Pacific", "UTC"]),
-          "thorough": dict(rows="6-10 daily rows on enumerated spans", nan_rows=4, zones=["US/Pacific", "UTC", "Australia/Sydney", "Europe/London"])}
+BOUNDS = {"quick": dict(rows="6-8 daily rows on enumerated spans (month boundaries, gaps, partial months)", nan_rows=2, zones=["US/Pacific", "UTC", "+ Australia/Sydney, Asia/Tokyo, Europe/Berlin on one span each"]),
+          "thorough": dict(rows="6-10 daily rows on enumerated spans", nan_rows=4, zones=["US/Pacific", "UTC", "Australia/Sydney", "Europe/London", "Asia/Tokyo", "Europe/Berlin", "Pacific/Auckland"])}
 STUBS = ["(i) DailyModel._predict -> arbitrary daily frame (fresh symbols, solver-chosen NaN states)", "data object = BillingReportingData shell handing out the frame"]
 MODELS_USED = ["symreal ExtensionArray reductions (sum/mean/first), symnp.sqrt/square/sum"]
 ASSUMPTIONS = ["spans/timezones enumerated (catalogue), values and NaN states solver-quantified",
@@ -56,6 +56,11 @@ def cases(tier, seed):
     zones = ["US/Pacific", "UTC", "Australia/Sydney", "Europe/London"] if tier == "thorough" else ["US/Pacific", "UTC"]
     spans = list(SPANS) if tier == "thorough" else ["boundary", "gap-month", "partial", "dst"]
     out = [f"agg|{sp}|{z}|{agg}|{obs}" for sp in spans for z in zones for agg in ("monthly", "bimonthly") for obs in ("obs", "noobs")]
+    if tier != "thorough":  # zones east of UTC: local midnight falls on the previous UTC day (and month)
+        out += ["agg|boundary|Australia/Sydney|monthly|obs", "agg|boundary|Australia/Sydney|bimonthly|noobs", "agg|yearend|Asia/Tokyo|monthly|obs",
+                "agg|dst|Europe/Berlin|bimonthly|obs"]
+    else:
+        out += [f"agg|{sp}|{z}|{agg}|obs" for sp in spans for z in ("Asia/Tokyo", "Europe/Berlin", "Pacific/Auckland") for agg in ("monthly", "bimonthly")]
     out += ["args|x|UTC|x|obs", "real|boundary|US/Pacific|monthly|obs"]
     return out
 
